@@ -8,7 +8,6 @@ import (
 	"encoding/json"
 	"fmt"
 	"os"
-	"runtime/pprof"
 	"sort"
 	"strings"
 	"time"
@@ -46,11 +45,11 @@ func bfsUniverse(tier string) (*pool.Universe, pool.Gen, int, int) {
 		specs = append(specs, pool.TxSpec{Name: "t0", Sender: 1, Off: 0, Data: "t", Signed: true})
 		nonces := [][]uint64{{n, m}, {n + 1, m}, {n + 2, m + 1}}
 		u := pool.NewUniverse("bfs:thorough", 2, []uint64{n, m}, nonces, specs)
-		return u, pool.Gen{NK: 3, MaxEvict: 2, EvictAll: true, Remote: []int{1, 5}}, 7, 3
+		return u, pool.Gen{NK: 3, MaxEvict: 2, EvictAll: true, Remote: []int{1, 5}}, 9, 3
 	}
 	nonces := [][]uint64{{n}, {n + 1}}
 	u := pool.NewUniverse("bfs:quick", 1, []uint64{n}, nonces, specs)
-	return u, pool.Gen{NK: 2, MaxEvict: 1, EvictAll: true, Remote: []int{1, 5}}, 6, 2
+	return u, pool.Gen{NK: 2, MaxEvict: 1, EvictAll: true, Remote: []int{1, 5}}, 8, 3
 }
 
 // limitUniverse: n transactions of one shape; state 0 = before any block, state 1 =
@@ -398,20 +397,12 @@ func limits(c *fw.Ctx) {
 // ---------------------------------------------------------------------------------
 
 func run(c *fw.Ctx) {
-	if pf := os.Getenv("C17_PROF"); pf != "" && c.Shard == 0 {
-		f, _ := os.Create(pf)
-		pprof.StartCPUProfile(f)
-		defer pprof.StopCPUProfile()
-	}
 	if err := pool.Boot(); err != nil {
 		panic(err)
 	}
 	u, gen, depth, shardAt := bfsUniverse(c.Tier)
-	if v := os.Getenv("C17_DEPTH"); v != "" {
+	if v := os.Getenv("C17_DEPTH"); v != "" { // calibration knob; the depth used is recorded in the evidence
 		fmt.Sscan(v, &depth)
-	}
-	if v := os.Getenv("C17_SHARDAT"); v != "" {
-		fmt.Sscan(v, &shardAt)
 	}
 	env := pool.NewEnv(u)
 	if err := env.VerifySigned(); err != nil {
